@@ -50,6 +50,8 @@ func (*pubPtrOnly) Put(in *Msg) error                              { return nil 
 
 func (pubPartial) Get(ctx context.Context, in *Msg) (*Msg, error) { return in, nil }
 
+type metaObj struct{ n int }
+
 type regCarrier interface {
 	RegisterService(*grpc.ServiceDesc, interface{})
 	GetServiceInfo() map[string]grpc.ServiceInfo
@@ -64,6 +66,15 @@ func suiteC15(r *Run) {
 
 	mkDesc := func(id int, name string) *grpc.ServiceDesc {
 		d := &grpc.ServiceDesc{ServiceName: name, HandlerType: (*synthHandler)(nil), Metadata: fmt.Sprintf("file%d.proto", id)}
+		// "any metadata": generated code puts a file name there, hand-written descriptions anything
+		switch id % 5 {
+		case 2:
+			d.Metadata = id
+		case 3:
+			d.Metadata = &metaObj{id}
+		case 4:
+			d.Metadata = metaObj{id}
+		}
 		if id%2 == 1 {
 			d.HandlerType = (*pubHandler)(nil)
 		}
